@@ -460,8 +460,28 @@ _C14 = [
 for _sp in _C14:
     _sp.update(ext='py2lean_c14', gen_file=_C14_GEN)
 
+# boltons.socketutils.BufferedSocket (round 3d, SOCKET MODE: harness/py2lean_c12.py, notes/SRCTIE.md "Socket mode").
+# `self.sock.recv / settimeout / send` and `time.time()` are fields of `PyRtC12.Net W φ` over an abstract world `W`; `φ` is
+# the carrier of floats (timeouts, clock readings).  `__init__` is not translated (float(), int(), RLock()): the attributes
+# it leaves are the state record.  Parameter types: `Unset T` = the `_UNSET` default or a `T`.
+BUFFERED_SOCKET = {
+    'name': 'BufferedSocket', 'lean_name': 'BufferedSocket',
+    'state': {'rbuf': 'Bytes', 'sbuf': 'List Bytes', 'maxsize': 'Int', 'timeout': 'Option Time', '_recvsize': 'Int'},
+    'sock': 'sock', 'locks': ['_recv_lock', '_send_lock'], 'sentinel': '_UNSET', 'consts': ['_RECV_LARGE_MAXSIZE'],
+    'ops': {'sock.recv': ('recv', ['Int'], 'Bytes'), 'sock.settimeout': ('settimeout', ['Option Time'], 'None'),
+            'sock.send': ('send', ['Bytes'], 'Int'), 'time.time': ('time', [], 'Time')},
+}
+_C12 = []
+for _py, _params, _res, _thm in [
+        ('recv_size', {'size': 'Int', 'timeout': 'Unset (Option Time)'}, 'Bytes', 'C12.src_recv_size_eq_model'),
+        ]:
+    _C12.append({'module': 'boltons.socketutils', 'qualname': 'BufferedSocket.' + _py, 'lean_name': 'BufferedSocket.' + _py,
+                 'cls': BUFFERED_SOCKET, 'params': _params, 'result': _res, 'tie_theorem': _thm,
+                 'translator': 'py2lean_c12', 'py': _py, 'method': True, 'kind': 'function', 'raises': True})
+
 SPECS = {
     'C14': _C14,
+    'C12': _C12,
     'C18': _MFR + _SB,
     'C13': _FB,
     'C01': _OMD,
